@@ -117,6 +117,9 @@ func ZZ_C14_store_pag_observers_buffer()  { zzC04PagObservers(1) }
 func ZZ_C14_store_pag_observers_page()    { zzC04PagObservers(2) }
 func ZZ_C14_store_pag_observers_interleaved() { zzC04PagObservers(4) }
 func ZZ_C14_store_pag_copy()         { zzC04PagCopyClearReweight(3) }
+func ZZ_C14_store_pag_copy_of_cleared() { zzC04PagCopyClearReweight(5) }
+func ZZ_C14_store_history_sparse()   { zzHistory(1, 3) }
+func ZZ_C11_store_dense_reweight()   { zzC04DenseReweight(4) }
 
 // compact() (run by Encode) and sortBuffer() (run by every ordered read) keep the represented map
 func zzC14PagReorg(k int) {
